@@ -41,7 +41,7 @@ def reqs_for(name):
         return [("tol>=0", lambda it: sp.Ge(S("tol"), 0)), ("sign-change", sign_change(S("initial.0"), S("initial.1")))]
     golden = (1 + sp.sqrt(5)) / 2
     return [("tol>=0", lambda it: sp.Ge(S("tol"), 0)), ("k_1>=0", lambda it: sp.Ge(S("k_1"), 0)), ("k_2>1", lambda it: sp.Gt(S("k_2"), 1)),
-            ("k_2<1+golden", lambda it: sp.Lt(S("k_2"), 1 + golden)), ("sign-change", sign_change(S("initial.0"), S("initial.1")))]
+            ("k_2<1+golden", lambda it: sp.Lt(S("k_2"), 1 + golden)), ("n_0>=0", lambda it: sp.Ge(S("n_0"), 0)), ("sign-change", sign_change(S("initial.0"), S("initial.1")))]
 
 
 def all_binds(body):
@@ -648,6 +648,48 @@ def check_itp_orientation(F, run, b, loop):
                   "worst-case bound n_1/2 + n_0 on the number of evaluations is lost" % (inst, l_, r_),
                   sample="itp entry path %s: %s" % (inst, "left <= right" if ordered else "δ and r are symmetric in the ends"))
     run.floor("R7.9", dp, "paths into the loop", n, 1, F.loc(b))
+    # R7.10 — the projection radius r = tol·2^e − width/2 is non-negative on every iteration (the hull argument of R7.2 assumes it, and a negative
+    # radius pushes the iterate away from the midpoint until it sticks to an end point: no termination).  Preconditions of the standard argument:
+    # n_1/2 >= log2(width_0/(2 tol)), e >= n_1/2 − j for n_0 >= 0 (guarded, R7.1), j counts the iterations from 0.
+    j_, n0_, nmax_, nh_ = sym.S("j"), sym.S("n_0"), sym.S("n_max"), sym.S("n_half")
+    tol_ = sym.S("tol")
+    for p in ps:
+        if not p.fell_through:
+            continue
+        cur = {nm: p.interp.env.get(i) for i, nm in p.interp.names.items()}
+        nh, nm_, l_, r_ = cur.get("n_half"), cur.get("n_max"), cur.get("left"), cur.get("right")
+        ok_nh = False
+        if nh is not None and str(getattr(nh, "func", "")) == "ceil" and str(getattr(nh.args[0], "func", "")) == "log2":
+            arg = nh.args[0].args[0]
+            ok_nh = sp.simplify(arg - sp.Abs(r_ - l_) / (2 * tol_)) == 0 or sp.simplify(arg - sp.Abs(l_ - r_) / (2 * tol_)) == 0
+        run.check(ok_nh, "R7.10", dp, "n_half>=log2(width/(2tol))", F.loc(b),
+                  "n_1/2 is %s; expected ceil(log2(|right − left| / (2·tol))) — rounding it down makes 2^(n_1/2)·2·tol smaller than the bracket and the projection radius negative" % nh,
+                  sample="n_half = ceil(log2(width/(2 tol)))")
+        run.check(nm_ is not None and nh is not None and sym.is_zero(nm_ - nh - n0_), "R7.10", dp, "n_max=n_half+n_0", F.loc(b), "n_max is %s, expected n_half + n_0" % nm_)
+        run.check(cur.get("j") == 0, "R7.10", dp, "j-starts-at-0", F.loc(b), "the iteration counter starts at %s" % cur.get("j"))
+        break
+    n_r = 0
+    for p in lps:
+        rec = getattr(p.interp, "recorded", {})
+        if "r" not in rec or not hasattr(rec["r"], "atoms"):
+            continue
+        n_r += 1
+        pw = [q for q in rec["r"].atoms(sp.Pow) if q.base == 2]
+        ok_e = False
+        e = None
+        if len(pw) == 1:
+            e = pw[0].exp
+            d = sp.expand(e.subs(nmax_, nh_ + n0_) - (nh_ - j_))
+            ok_e = d.free_symbols <= {n0_} and sp.Poly(d, n0_).degree() <= 1 and all(c >= 0 for c in sp.Poly(d, n0_).all_coeffs())
+            ok_e = ok_e and sym.is_zero(sp.expand(rec["r"]) - sp.expand(tol_ * pw[0] - sp.Abs(sym.S("right") - sym.S("left")) / 2))
+        run.check(ok_e, "R7.10", dp, "radius=tol·2^(>=n_half−j)−width/2", F.loc(b, loop),
+                  "the projection radius is %s; expected tol·2^e − |right − left|/2 with e − (n_1/2 − j) a non-negative multiple of n_0" % rec["r"],
+                  sample="r = tol·2^(%s) − width/2" % e)
+        if p.fell_through:
+            cur = {nm: p.interp.env.get(i) for i, nm in p.interp.names.items()}
+            run.check(sym.is_zero(cur.get("j") - j_ - 1), "R7.10", dp, "j-counts-iterations", F.loc(b, loop), "after an iteration j is %s" % cur.get("j"))
+        break
+    run.floor("R7.10", dp, "iterations with a recorded radius", n_r, 1, F.loc(b))
 
 
 def check_nan_idiom(F, run):
